@@ -4,7 +4,7 @@ import nodecheck
 PROFILE = dict(outbound=0.6, peers=3)
 W = nodecheck.weights(app_request=8, answer_request=7, odd_answer=3, tick=5, cea=10, conndone=8, cer=8, close=1.5, dpr=1)
 N_QUICK, N_THOROUGH, LENGTH = 60, 1500, 24
-THEMES = (("ready", 2, 60, 2, 3000), ("two_peers", 400, 0, None, 0), ("realms", 120, 0, None, 0))
+THEMES = (("ready", 2, 60, 2, 3000), ("two_peers", 400, 0, None, 0), ("realms", 120, 0, None, 0), ("default_peer", 160, 0, None, 0))
 # the hop-by-hop identifiers of outbound requests come from the per-connection SequenceGenerator: the bridge theorem
 # C10_hbh_fresh is about the model's generator, Link/LinkIds.v ties that generator's step program to node/_helpers.py
 FILES = ["Link/LinkIds.v", "Props/C10.v"]
